@@ -558,3 +558,52 @@ func zxC17RealStore() {
 	vrtAssert(len(alone0) > 0 && len(alone1) > 0, "each query alone sees rows")
 	vrtReach("C17.M")
 }
+
+// C17.Q — the real DB.coalesceIteration: N scans requested inside one coalesce interval for up to
+// three tables. Every batch handed to the processors holds scans of one table only
+// (doProcessIterations scans iterations[0]'s table for the whole batch), the batch of the first
+// scan holds exactly the waiting scans of its table, and every other scan is still queued —
+// each exactly once.
+//
+//zx:harness prop=C17 id=C17.Q tier=quick N=4 thorough.N=6
+func zxC17CoalesceQueue() {
+	N := vrtParam("N", 4)
+	t0, _ := zxTable(core.Fields{core.PointsField, zxFieldA})
+	db := t0.db
+	db.opts.IterationCoalesceInterval = time.Millisecond
+	db.requestedIterations = make(chan *iteration, 1000)
+	db.coalescedIterations = make(chan []*iteration, 16)
+	tables := []*table{t0, {TableOpts: &TableOpts{Name: "t1"}, db: db}, {TableOpts: &TableOpts{Name: "t2"}, db: db}}
+	its := make([]*iteration, N)
+	for i := range its {
+		its[i] = &iteration{t: tables[vrtShape("table"+zxItoa(i), len(tables))]}
+	}
+	for _, it := range its[1:] {
+		db.requestedIterations <- it
+	}
+	db.coalesceIteration(its[0])
+	seen := map[*iteration]int{}
+	nBatches := 0
+	for len(db.coalescedIterations) > 0 {
+		batch := <-db.coalescedIterations
+		nBatches++
+		vrtAssert(len(batch) > 0, "no empty batch")
+		for _, it := range batch {
+			seen[it]++
+			vrtAssert(it.t == batch[0].t, "a batch handed to the processors holds scans of a single table")
+			if batch[0] == its[0] {
+				vrtAssert(it.t == its[0].t, "the batch of the first scan holds scans of its table")
+			}
+		}
+	}
+	vrtAssert(nBatches >= 1 && seen[its[0]] == 1, "the first scan is handed to the processors")
+	for len(db.requestedIterations) > 0 {
+		it := <-db.requestedIterations
+		seen[it]++
+		vrtAssert(it.t != its[0].t, "a scan of the first scan's table that arrived inside the interval is not left waiting")
+	}
+	for i, it := range its {
+		vrtAssert(seen[it] == 1, "scan "+zxItoa(i)+" is either in a batch or still queued, exactly once")
+	}
+	vrtReach("C17.Q")
+}
